@@ -6,15 +6,15 @@ there - the standing proof that the check is not vacuous."""
 PLAN = {
     "C01": dict(
         quick=[("lit_finish_exit", dict(shuffle=8)), ("lit_foreign_finish", dict(cap=1000, shuffle=6)), ("lit_child_other", dict(cap=1000, shuffle=6)), "lit_local_scope",
-               ("lit_spawn_sweep", dict(cap=1000, shuffle=6)), ("par4", dict(shuffle=4)), ("over5_d", dict(cap=600)), ("smp_mixed", dict(cap=1500)),
+               ("lit_spawn_sweep", dict(cap=1000, shuffle=6)), ("par4", dict(shuffle=4)), ("over5_d", dict(cap=600)), ("smp_mixed", dict(cap=1500)), ("tree4", dict(cap=1500)), ("over_recover", dict(cap=1200)),
                ("stress:tree4", dict(rounds=200, threads=6)), ("stress:over5_d", dict(rounds=150, threads=4, cfg=dict(K=2))), "burst:9000", "overlap:1"],
         thorough=["lit_finish_exit", "lit_foreign_finish", "lit_child_other", "lit_local_scope", "lit_attach_other", "lit_spawn_sweep", "par4", "par5",
                   "over5_d", "tree5", ("sim_par3", dict(cap=6000)), ("stress:tree4", dict(rounds=2000, threads=6)), "burst:9000", "overlap:1"],
         vacuity=[("lit_finish_exit", ["FixRecv"])],
     ),
     "C02": dict(
-        quick=[("tree4", dict(cap=2500)), ("scope_deep", dict(cap=2500)), "ids:600"],
-        thorough=["tree4", "tree5", "scope_deep", "ids:600", ("tree6", dict(cap=20000, timeout=2400)), ("sim_tree", dict(cap=6000))],
+        quick=[("tree4", dict(cap=2500)), ("scope_deep", dict(cap=2500)), ("lcdrop_open", dict(cap=2000)), "ids:600"],
+        thorough=["tree4", "tree5", "scope_deep", "lcdrop_open", "ids:600", ("tree6", dict(cap=20000, timeout=2400)), ("sim_tree", dict(cap=6000))],
         vacuity=[("tree4", [], "skip-second-copy")],
     ),
     "C03": dict(
@@ -55,13 +55,13 @@ PLAN = {
     "C09": dict(
         quick=[("over5_d", dict(cap=800, shuffle=3)), ("over5_c", dict(cap=800, shuffle=3)), ("lit_overflow_cancel", dict(cap=500, shuffle=6)),
                ("lit_overflow_finish", dict(cap=500, shuffle=4)), ("lit_overflow_finish_c", dict(cap=500, shuffle=4)),
-               ("qlimit5", dict(cap=4000)), ("qlimit_with", dict(cap=2500)), ("scope_q1", dict(cap=1500)), ("slimit5", dict(cap=3000))],
-        thorough=["over5_d", "over5_c", "over6_c", "lit_overflow_finish", "lit_overflow_finish_c", "lit_overflow_cancel", "qlimit5", "qlimit_with", "slimit5"],
+               ("over_recover", dict(cap=1500)), ("qlimit5", dict(cap=4000)), ("qlimit_with", dict(cap=2500)), ("scope_q1", dict(cap=1500)), ("slimit5", dict(cap=3000))],
+        thorough=["over5_d", "over5_c", "over6_c", "lit_overflow_finish", "lit_overflow_finish_c", "lit_overflow_cancel", "over_recover", "qlimit5", "qlimit_with", "slimit5"],
         vacuity=[("over5_d", ["FixForceStart"]), ("over5_d", ["FixFifo"])],
     ),
     "C10": dict(
-        quick=[("scope5", dict(cap=2000)), ("scope_q1", dict(cap=3000)), ("scope_qfull", dict(cap=800)), ("scope_smp", dict(cap=2500)), ("scope_deep", dict(cap=2500)), ("lcdrop_open", dict(cap=2500))],
-        thorough=["scope5", ("scope6", dict(cap=20000)), "scope_q1", "scope_qfull", "scope_smp", "lcdrop_open", ("scope_smp6", dict(cap=20000, timeout=1200))],
+        quick=[("scope5", dict(cap=2000)), ("scope_q1", dict(cap=3000)), ("scope_qfull", dict(cap=800)), ("scope_smp", dict(cap=2500)), ("scope_deep", dict(cap=2500)), ("lcdrop_open", dict(cap=2500)), ("latt_deep", dict(cap=1500))],
+        thorough=["scope5", ("scope6", dict(cap=20000)), "latt_deep", "scope_q1", "scope_qfull", "scope_smp", "lcdrop_open", ("scope_smp6", dict(cap=20000, timeout=1200))],
         vacuity=[("scope5", [], "no-restore")],
     ),
     "C11": dict(
@@ -91,8 +91,8 @@ PLAN["C14"] = dict(
     vacuity=[("poll_str_c", ["FixInSpan"])],
 )
 PLAN["C16"] = dict(
-    quick=[("notready4", dict(cap=1200)), ("disabled4", dict(cap=1200)), ("hostile4", dict(cap=800)), "lazy_smp"],
-    thorough=["notready4", "disabled4", "hostile4", "hostile5", "lazy_smp"],
+    quick=[("notready4", dict(cap=1200)), ("disabled4", dict(cap=1200)), ("hostile4", dict(cap=800)), "lazy_smp", "lazy_noop"],
+    thorough=["notready4", "disabled4", "hostile4", "hostile5", "lazy_smp", "lazy_noop"],
     vacuity=[("notready4", [], "root-ignores-ready")],
     needs_off=True,
 )
